@@ -154,6 +154,22 @@ class TxnAnalysis:
         return False
 
 
+def _composite_attributes(init):
+    """{attribute: self attributes it holds} for `self.X = <tuple / list / dict literal>` in the constructor whose
+    elements (at any depth of literal nesting, or inside comprehensions over them) are `self.<attr>` references"""
+    out = {}
+    if init is None:
+        return out
+    for n in ast.walk(init):
+        if isinstance(n, ast.Assign) and len(n.targets) == 1 and isinstance(n.targets[0], ast.Attribute) \
+                and norm(n.targets[0].value) == "self" and isinstance(n.value, (ast.Tuple, ast.List, ast.Dict)):
+            held = {x.attr for x in ast.walk(n.value) if isinstance(x, ast.Attribute) and isinstance(x.value, ast.Name)
+                    and x.value.id == "self"}
+            if held:
+                out[n.targets[0].attr] = held
+    return out
+
+
 def _return_only_without_simulation(ret, init):
     """an early `return` of the constructor that can only be taken when there is no simulation date (nothing to reset)"""
     from ..astutil import path_conditions
@@ -307,6 +323,12 @@ def r_txn(E):
             if h is not None and nm not in ("rollback", "__init__") and not is_property(h):
                 mentioned |= {n.attr for n in ast.walk(h) if isinstance(n, ast.Attribute)
                               and isinstance(n.value, ast.Name) and n.value.id == "self"}
+        # … or through an attribute that holds the lists themselves: `self.stages = ((self.A, self.B), …)` bound once in the
+        # constructor — reading it is reading the lists it holds (R-ALIASREBIND checks that they stay the same objects)
+        composites = _composite_attributes(T.methods.get("__init__"))
+        for _ in range(2):
+            for a_ in sorted(mentioned & set(composites)):
+                mentioned |= composites[a_]
         need = ["changes_list", "hourly_quantities_to_filter", "filtered_hourly_quantities",
                 "ancestors_to_replace_by_copies", "replaced_ancestors_copies", "values_to_recompute",
                 "recomputed_values"]
@@ -353,6 +375,15 @@ def r_txn(E):
                         if isinstance(t, ast.Attribute) and isinstance(t.value, ast.Name) and t.value.id == "self" \
                                 and t.attr == "recomputed_values":
                             published = s
+            if published is None and loop is not None:
+                # the attribute's own list kept and emptied in place: `xs = self.recomputed_values; xs.clear()` — what the
+                # loop appends to xs is in the attribute at once
+                for s in rec.body:
+                    if s.lineno >= loop.lineno:
+                        break
+                    if isinstance(s, ast.Assign) and len(s.targets) == 1 and isinstance(s.targets[0], ast.Name) \
+                            and norm(s.value) == "self.recomputed_values":
+                        published = s
             appended_in_loop = False
             if loop is not None and published is not None:
                 aliases = {t.id for t in published.targets if isinstance(t, ast.Name)} | {"self.recomputed_values"}
@@ -808,7 +839,8 @@ def r_zip(E):
                                 and len(rets[0].value.generators) == 1 and not rets[0].value.generators[0].ifs \
                                 and norm(rets[0].value.generators[0].iter).startswith("self."):
                             pairs[(norm(rets[0].value.generators[0].iter)[5:], "self." + t.attr)] = m
-    # an attribute assigned as alias of a local list before the loop (self.x = x = [])
+    # an attribute assigned as alias of a local list before the loop (self.x = x = []), or a local that names the
+    # attribute's list (x = self.x)
     for name, fn in T.methods.items():
         for n in ast.walk(fn):
             if isinstance(n, ast.Assign) and len(n.targets) == 2:
@@ -816,6 +848,11 @@ def r_zip(E):
                 l = [t for t in n.targets if isinstance(t, ast.Name)]
                 if a and l:
                     alias[(name, l[0].id)] = a[0].attr
+            if isinstance(n, ast.Assign) and len(n.targets) == 1 and isinstance(n.targets[0], ast.Name) \
+                    and isinstance(n.value, ast.Attribute) and norm(n.value.value) == "self" \
+                    and sum(1 for m_ in ast.walk(fn) if isinstance(m_, ast.Assign) and any(
+                        isinstance(t, ast.Name) and t.id == n.targets[0].id for t in m_.targets)) == 1:
+                alias[(name, n.targets[0].id)] = n.value.attr
     lock = set()
     for (it, tgt), m in pairs.items():
         t = tgt[5:] if tgt.startswith("self.") else alias.get((m, tgt), tgt)
